@@ -17,7 +17,7 @@ import traceback
 from typing import Any
 
 import hv
-from hv.record import Recorder, h64, jsonable
+from hv.record import EnoughViolations, Recorder, h64, jsonable
 
 VERIF = hv.VERIF
 OUT = os.environ.get("HV_OUT") or VERIF  # where evidence/ and replays/ go (self-tests redirect it)
@@ -57,8 +57,16 @@ def worker(pid: str, tier: str, seed: int, shard: int, nshards: int, out: str) -
     prop = load_prop(pid)
     R = Recorder(pid, tier, seed, shard, nshards)
     t0 = time.time()
+    # a shard that has recorded this many violations stops: the run's verdict is decided, and broken code often makes every case slow
+    # (witnesses of listed known findings do not count; the -O pass renames its monitors only after the run)
+    R.stop_after = getattr(prop, "STOP_AFTER_VIOLATIONS", Recorder.STOP_AFTER)
+    findings = load_findings()
+    R.is_known = lambda name, where: match_finding(pid, {"monitor": name, "where": where}, findings) is not None
     try:
         prop.run(R, tier, seed, shard, nshards)
+    except EnoughViolations as exc:
+        R.counters["shards_stopped_early_after_many_violations"] += 1
+        R.flags["stopped_early"] = str(exc)
     except BaseException as exc:  # noqa: BLE001 - harness failure => inconclusive, never "held"
         R.inconclusive.append(f"harness error in shard {shard}: {type(exc).__name__}: {exc}\n{traceback.format_exc()[-1500:]}")
     d = R.dump()
